@@ -108,7 +108,8 @@ type Frame struct {
 	prefix     string // label prefix for inlined obligations
 	params     map[string]Term
 	ptypes     map[string]types.Type
-	rets       []retInfo
+	rets     []retInfo
+	exits    []retInfo
 	headerSt   map[*ssa.BasicBlock]*State // state right after havoc+assume at loop header
 	headerV0   map[*ssa.BasicBlock][]Term // variants at header
 	labelCnt   map[string]int
@@ -260,7 +261,7 @@ func (fe *FuncEnc) setComp(st *State, name string, t Term) {
 // obligations
 
 func (fe *FuncEnc) emit(kind, label string, path, goal Term, clause string, pos token.Pos) {
-	if kind == "post" || kind == "inv.step" || kind == "inv.entry" || kind == "pre" || kind == "lemma" {
+	if kind == "globalinv" || kind == "post" || kind == "inv.step" || kind == "inv.entry" || kind == "pre" || kind == "lemma" {
 		if parts := splitGoal(goal.S, 16); len(parts) > 1 {
 			for i, p := range parts {
 				fe.emit1(kind, fmt.Sprintf("%s.%d", label, i+1), path, Term{p, SBool}, clause, pos)
